@@ -25,8 +25,8 @@ MANIFEST = {
 
 PRE = ['reset', 'mk.dom\t0\ta\t5\t-\t-', 'mk.dom\t0\tb\t5\t-\t-',
        'mk.cplx\t0\tA\t-\th0\t.', 'mk.cplx\t0\tB\t-\th1\t.', 'mk.cplx\t0\tC\t-\th0 h1\t..', 'mk.cplx\t0\tD\t-\th1 + h0 h0\t(+).',
-       'mk.cplx\t0\tE\t-\th0 + h0\t(+)']
-CX = [2, 3, 4, 5, 6]          # handles of the complexes
+       'mk.cplx\t0\tE\t-\th0 + h0\t(+)', 'mk.cplx\t0\tC2\t-\th0 h1\t()']     # C2: same sequence as C, other structure
+CX = [2, 3, 4, 5, 6, 7]          # handles of the complexes
 RTYPES = ['bind21', 'open', 'condensed', 'branch-3way']
 
 
@@ -63,10 +63,10 @@ def run(res, proof):
                     res.evaluations += 1
                     if k > 1:
                         res.nontriv(('macro', first, nm))
-                    if not o.startswith('ret h7 new'):
-                        res.violation('macro:construction', {'history': list(hl)}, o, 'ret h7 new')
+                    if not o.startswith('ret h8 new'):
+                        res.violation('macro:construction', {'history': list(hl)}, o, 'ret h8 new')
                         lines.extend(hl); impl.extend(ho); continue
-                    m = iw.held[7]
+                    m = iw.held[8]
                     members = [iw.held[x] for x in sub]
                     smallest = min(members, key=lambda c: c.canonical_form)
                     want_name = smallest.name if nm == '-' else nm
@@ -78,13 +78,13 @@ def run(res, proof):
                                       'name %s, %d members, representative carrying the name, members in canonical order' % (want_name, k))
                     for p in (perms if k <= 3 else rng.sample(perms, 6)):
                         o2 = step(hl, ho, 'mk.macro\t0\t%s\t%s' % (nm, hs(p)))
-                        if o2 != 'ret h7 old':
-                            res.violation('macro:permutation-not-identified', {'history': list(hl)}, o2, 'ret h7 old')
+                        if o2 != 'ret h8 old':
+                            res.violation('macro:permutation-not-identified', {'history': list(hl)}, o2, 'ret h8 old')
                     # a different member set denotes a different object
                     others = [c for c in CX if c not in sub]
                     if others:
                         o3 = step(hl, ho, 'mk.macro\t0\t-\t%s' % hs(list(sub[1:]) + [others[0]]))
-                        if o3.startswith('ret h7'):
+                        if o3.startswith('ret h8'):
                             res.violation('macro:different-members-identified', {'history': list(hl)}, o3, 'another object or a refusal')
                     del m, members, smallest
                     lines.extend(hl); impl.extend(ho)
@@ -100,10 +100,10 @@ def run(res, proof):
         o = step(hl, ho, 'mk.rxn\t0\t-\t%s\t%s\t%s' % (t, hs(r0), hs(p0)))
         res.evaluations += 1
         res.nontriv(('rxn', tuple(r), tuple(p), t))
-        if not o.startswith('ret h7 new'):
-            res.violation('reaction:construction', {'history': list(hl)}, o, 'ret h7 new')
+        if not o.startswith('ret h8 new'):
+            res.violation('reaction:construction', {'history': list(hl)}, o, 'ret h8 new')
             lines.extend(hl); impl.extend(ho); continue
-        x = iw.held[7]
+        x = iw.held[8]
         rs = sorted([iw.held[i] for i in r], key=lambda c: c.canonical_form)
         ps = sorted([iw.held[i] for i in p], key=lambda c: c.canonical_form)
         want_name = '[%s] %s -> %s' % (t, ' + '.join(c.name for c in rs), ' + '.join(c.name for c in ps))
@@ -114,8 +114,8 @@ def run(res, proof):
         for rp in rperms:
             for pp in pperms:
                 o2 = step(hl, ho, 'mk.rxn\t0\t-\t%s\t%s\t%s' % (t, hs(rp), hs(pp)))
-                if o2 != 'ret h7 old':
-                    res.violation('reaction:permutation-not-identified', {'history': list(hl)}, o2, 'ret h7 old')
+                if o2 != 'ret h8 old':
+                    res.violation('reaction:permutation-not-identified', {'history': list(hl)}, o2, 'ret h8 old')
         # changing the type, a multiplicity or a member denotes a different object
         t2 = RTYPES[(RTYPES.index(t) + 1) % len(RTYPES)]
         for l in ('mk.rxn\t0\t-\t%s\t%s\t%s' % (t2, hs(r0), hs(p0)),
@@ -124,7 +124,7 @@ def run(res, proof):
             if l is None:
                 continue
             o3 = step(hl, ho, l)
-            if o3.startswith('ret h7'):
+            if o3.startswith('ret h8'):
                 res.violation('reaction:different-request-identified', {'history': list(hl)}, o3, 'another object')
         del x, rs, ps
         lines.extend(hl); impl.extend(ho)
@@ -137,20 +137,20 @@ def run(res, proof):
         o2 = step(hl, ho, 'mk.macro\t0\t%s\th%d h%d' % (iw.held[c].name, a, c))
         d = [x for x in CX if x not in trio][0]
         o3 = step(hl, ho, 'mk.macro\t0\t-\th%d' % d)
-        if not (o1.startswith('ret h7 new') and o2.startswith('ret h8 new') and o3.startswith('ret h9 new')):
+        if not (o1.startswith('ret h8 new') and o2.startswith('ret h9 new') and o3.startswith('ret h10 new')):
             lines.extend(hl); impl.extend(ho); continue
         res.evaluations += 1
         res.nontriv(('overlap', trio))
         for side in ('reactants', 'products'):
-            fw = 'mk.rxn\t0\t-\tcondensed\t%s\t%s' % (('h7 h8', 'h9') if side == 'reactants' else ('h9', 'h7 h8'))
-            bw = 'mk.rxn\t0\t-\tcondensed\t%s\t%s' % (('h8 h7', 'h9') if side == 'reactants' else ('h9', 'h8 h7'))
+            fw = 'mk.rxn\t0\t-\tcondensed\t%s\t%s' % (('h8 h9', 'h10') if side == 'reactants' else ('h10', 'h8 h9'))
+            bw = 'mk.rxn\t0\t-\tcondensed\t%s\t%s' % (('h9 h8', 'h10') if side == 'reactants' else ('h10', 'h9 h8'))
             x1 = step(hl, ho, bw)
             x2 = step(hl, ho, fw)
             if x1.startswith('ret h') and x2.split(' ')[:2] != x1.split(' ')[:2]:
                 res.violation('reaction:overlapping-macrostates-order', {'history': list(hl)}, x2, 'the same object as the permuted request')
             if x1.startswith('ret h'):
                 rx = iw.held[int(x1.split(' ')[1][1:])]
-                ms = sorted([iw.held[7], iw.held[8]], key=lambda m: m.canonical_form)
+                ms = sorted([iw.held[8], iw.held[9]], key=lambda m: m.canonical_form)
                 listed = list(rx.reactants if side == 'reactants' else rx.products)
                 if [id(m) for m in listed] != [id(m) for m in ms]:
                     res.violation('reaction:not-in-canonical-order', {'history': list(hl)}, repr(listed), repr(ms))
@@ -161,7 +161,7 @@ def run(res, proof):
         hl, ho = start()
         step(hl, ho, 'mk.macro\t0\t-\t%s' % hs(rng.sample(CX, 2)))
         step(hl, ho, 'mk.macro\t0\t-\t%s' % hs(rng.sample(CX, 1)))
-        ms = [h for h in (7, 8) if h in iw.held]
+        ms = [h for h in (8, 9) if h in iw.held]
         if len(ms) == 2:
             r = [rng.choice(ms) for _ in range(rng.randint(1, 2))]
             p = [rng.choice(ms) for _ in range(rng.randint(1, 2))]
